@@ -394,8 +394,8 @@ def run(ctx):
     d = ctx.sub('sim')
     mp, cp = tlc.write_mc(d, 'CacheMap', 'MC_Sim', dict(Addr=set(NAMES), Bytes=set(BYTES), MaxBulk=3 if thorough else 2))
     prefix = os.path.join(d, 'beh')
-    nsim = 120 if thorough else 24
-    depth = 30 if thorough else 16
+    nsim = 60 if thorough else 24
+    depth = 24 if thorough else 16
     r = tlc.run(mp, cp, d, workers=1, simulate='file=%s,num=%d' % (prefix, nsim), depth=depth, seed=ctx.seed + 11,
                 coverage=False, timeout=1200)
     behs = [beh_ops(b) for f, b in tlc.sim_traces(prefix) if len(b) > 1]
@@ -406,7 +406,7 @@ def run(ctx):
     for bi, beh in enumerate(behs):
         for b in bks:
             fams = families_for(b)
-            fam = fams[(bi + len(b.name)) % len(fams)] if not thorough else None
+            fam = fams[(bi + len(b.name)) % len(fams)] if (not thorough or bi % 3) else None
             for family in ([fam] if fam else fams):
                 res = replay_behaviour(ctx, b, family, beh)
                 if res == 'skip':
